@@ -61,7 +61,7 @@ func (p *parser) convertTo(e *Expr, to *Type, what string, line int) *Expr {
 	if !p.canConvert(e.typ, to) {
 		p.fail(line, "%s: cannot convert %s to %s", what, e.typ, to)
 	}
-	return p.fold(&Expr{op: xConvert, typ: to, a: e, line: line, fx: e.fx, cx: e.cx})
+	return p.fold(&Expr{op: xConvert, typ: to, a: e, line: line, fx: e.fx, cx: e.k()})
 }
 
 // ---- constant folding ----
@@ -74,16 +74,20 @@ func (p *parser) fold(e *Expr) *Expr {
 		return e
 	}
 	if e.typ.cells == 0 || e.typ.cells > foldLimit {
-		e.cx = false
+		e.cx, e.kx = false, true
 		return e
 	}
 	v, ok := p.kev.constEval(e)
 	if !ok {
-		e.cx = false
+		// still a constant expression by the language's rules; it is evaluated (and may trap) at run time
+		e.cx, e.kx = false, true
 		return e
 	}
 	return &Expr{op: xConst, typ: e.typ, val: v, line: e.line, cx: true}
 }
+
+// k: is e a constant expression (folded, foldable or left unfolded)?
+func (e *Expr) k() bool { return e.cx || e.kx }
 
 func (p *parser) tryConst(e *Expr) ([]cell, bool) {
 	if e.op == xConst {
@@ -209,7 +213,7 @@ func (p *parser) parseTernary() *Expr {
 	if a.typ.Kind == KVoid {
 		p.fail(t.line, "operands of ?: have type void")
 	}
-	return p.fold(&Expr{op: xTernary, typ: a.typ, a: c, b: a, c: b, line: t.line, fx: c.fx || a.fx || b.fx, cx: c.cx && a.cx && b.cx})
+	return p.fold(&Expr{op: xTernary, typ: a.typ, a: c, b: a, c: b, line: t.line, fx: c.fx || a.fx || b.fx, cx: c.k() && a.k() && b.k()})
 }
 
 type binInfo struct {
@@ -250,7 +254,7 @@ func (p *parser) parseBinary(minPrec int) *Expr {
 			} else if bi.op == -3 {
 				op = xLogXor
 			}
-			lhs = p.fold(&Expr{op: op, typ: tBool, a: lhs, b: rhs, line: t.line, fx: lhs.fx || rhs.fx, cx: lhs.cx && rhs.cx})
+			lhs = p.fold(&Expr{op: op, typ: tBool, a: lhs, b: rhs, line: t.line, fx: lhs.fx || rhs.fx, cx: lhs.k() && rhs.k()})
 			continue
 		}
 		lhs = p.mkBinary(binop(bi.op), lhs, rhs, t.line)
@@ -291,7 +295,7 @@ func (p *parser) mkBinary(op binop, a, b *Expr, line int) *Expr {
 	bad := func() {
 		p.fail(line, "operator %s cannot be applied to %s and %s", binopText[op], a.typ, b.typ)
 	}
-	e := &Expr{op: xBinary, sub: uint8(op), line: line, fx: a.fx || b.fx, cx: a.cx && b.cx}
+	e := &Expr{op: xBinary, sub: uint8(op), line: line, fx: a.fx || b.fx, cx: a.k() && b.k()}
 	ta, tb := a.typ, b.typ
 	arith := func(t *Type) bool { return t.isNumeric() }
 	switch op {
@@ -442,7 +446,7 @@ func (p *parser) parseUnary() *Expr {
 					p.fail(t.line, "operand of ~ has type %s; it must be an integer", a.typ)
 				}
 			}
-			return p.fold(&Expr{op: xUnary, sub: uint8(op), typ: a.typ, a: a, line: t.line, fx: a.fx, cx: a.cx})
+			return p.fold(&Expr{op: xUnary, sub: uint8(op), typ: a.typ, a: a, line: t.line, fx: a.fx, cx: a.k()})
 		case "++", "--":
 			p.pos++
 			a := p.parseUnary()
@@ -553,7 +557,7 @@ func (p *parser) mkIndex(a, idx *Expr, line int) *Expr {
 		}
 	}
 	e := &Expr{op: xIndex, typ: rt, a: a, b: idx, line: line, lv: a.lv && a.op != xSwizzle, sp: a.sp, rootBlk: a.rootBlk,
-		fx: a.fx || idx.fx, cx: a.cx && idx.cx}
+		fx: a.fx || idx.fx, cx: a.k() && idx.k()}
 	return p.fold(e)
 }
 
@@ -584,7 +588,7 @@ func (p *parser) mkMember(a *Expr, name string, line int) *Expr {
 	if t.Kind == KStruct {
 		for i, m := range t.Struct.Members {
 			if m.Name == name {
-				e := &Expr{op: xMember, typ: m.Type, a: a, slot: i, line: line, lv: a.lv, sp: a.sp, rootBlk: a.rootBlk, fx: a.fx, cx: a.cx}
+				e := &Expr{op: xMember, typ: m.Type, a: a, slot: i, line: line, lv: a.lv, sp: a.sp, rootBlk: a.rootBlk, fx: a.fx, cx: a.k()}
 				return p.fold(e)
 			}
 		}
@@ -633,7 +637,7 @@ func (p *parser) mkMember(a *Expr, name string, line int) *Expr {
 			}
 		}
 		e := &Expr{op: xSwizzle, typ: vecOf(t.Elem, len(swz)), a: base, swz: swz, line: line,
-			lv: base.lv && !dup, sp: base.sp, rootBlk: base.rootBlk, fx: base.fx, cx: base.cx}
+			lv: base.lv && !dup, sp: base.sp, rootBlk: base.rootBlk, fx: base.fx, cx: base.k()}
 		return p.fold(e)
 	}
 	p.fail(line, "member selection .%s on a value of type %s", name, t)
@@ -782,7 +786,7 @@ func (p *parser) mkConstruct(ty *Type, args []*Expr, line int) *Expr {
 	e := &Expr{op: xConstruct, typ: ty, args: args, line: line, cx: true}
 	for _, a := range args {
 		e.fx = e.fx || a.fx
-		e.cx = e.cx && a.cx
+		e.cx = e.cx && a.k()
 		if a.typ.Kind == KVoid {
 			p.fail(line, "constructor argument of type void")
 		}
@@ -1053,7 +1057,7 @@ func (p *parser) mkCall(nt token, sym *symbol, args []*Expr) *Expr {
 		e.cx = true
 		for _, a := range args {
 			e.fx = e.fx || a.fx
-			e.cx = e.cx && a.cx
+			e.cx = e.cx && a.k()
 		}
 		return p.fold(e)
 	}
